@@ -491,6 +491,27 @@ def handle (line : String) : Out :=
             | m+1 => (legalMoves r.2).any fun r' => !isRec r'.2 && li m r'.2)
       let keep := (legalMoves s).filter fun r => !isRec r.2 && li (d - 1) r.2
       ⟨"-", joinSp (keep.map fun r => s!"{r.1.toNat}")⟩
+  | "matekinds" =>
+    -- matekinds <fen...> (spec only): for every legal move that MATES: `<raw>:<number of checking pieces>:<king has a pseudo-legal move 0|1>`
+    match parseFenM (rest 1), specOf (rest 1) with
+    | some s, some _ =>
+      let outs := (legalMoves s).filterMap fun r =>
+        if (legalMoves r.2).isEmpty && r.2.isCheck then
+          let p := Wee.abs r.2
+          let them := p.turn.opp
+          let ks := p.kingSquares p.turn
+          let checkers := (List.range 64).filter fun q =>
+            match p.at q with
+            | some (c, k) => c == them && ks.any fun t => (Spec.attacksFrom p.occupied c k q).contains t
+            | none => false
+          let kingPseudo : Bool := match pseudoLegalMoves r.2 with
+            | some ps => ps.any fun m => Move.piece m == Piece.king
+            | Option.none => false
+          let kp : String := cond kingPseudo "1" "0"
+          some s!"{r.1.toNat}:{checkers.length}:{kp}"
+        else Option.none
+      ⟨"-", joinSp outs⟩
+    | _, _ => ⟨"-", "-"⟩
   | "matecheck" =>
     -- matecheck <eval> <first raw> <fen...> (spec only): a winning terminal evaluation claims a forced
     -- mate; the ply bonus of the score bounds the distance when it is below 10 plies
